@@ -12,7 +12,7 @@ OPC = dict(getinfo=1, listdir=2, makedir=3, makedirs=4, writebytes=5, appendbyte
            move=15, copy=16, movedir=17, copydir=18, setinfo=19, exists=20, isdir=21, isfile=22,
            isempty=23, getsize=24, gettype=25, scandir=26)
 
-MT_BASE = 1000000
+MT_BASE = 1000000000
 
 
 def encode(op):
@@ -138,14 +138,22 @@ def execute(fs, op):
             if n == "isempty":
                 return "ok:" + r_bool(fs.isempty(op[1]))
             if n == "getsize":
-                return "ok:" + r_int(fs.getsize(op[1]))
+                size = fs.getsize(op[1])
+                # the size reported for a directory is backend-specific (0, 4096, ...)
+                return "ok:" + r_int(0 if fs.isdir(op[1]) else size)
             if n == "gettype":
                 return "ok:" + r_int(int(fs.gettype(op[1])))
             raise ValueError(n)
         except Timeout:
             return "crash:NonTermination"
         except Exception as e:  # noqa
-            return exc_name(e)
+            name = exc_name(e)
+            if name.startswith("err:"):
+                try:                      # C06: the message can be rendered
+                    str(e), repr(e)
+                except Exception:
+                    return "crash:RenderError"
+            return name
     finally:
         signal.alarm(0)
         signal.signal(signal.SIGALRM, old)
